@@ -219,6 +219,13 @@ pub fn c12(a: &Args) {
             if cnf_tt(n, &cls).count() > 0 { starts.push((n, cls, "random".into())); break; }
         }
     }
+    // a stored clause set beyond a few hundred clauses (every clause contains the literal 1, so the set is satisfiable)
+    for big in 0..(if a.thorough() { 3 } else { 1 }) {
+        let n = 9 + big as u32;
+        let mut set: std::collections::BTreeSet<Clause> = Default::default();
+        while set.len() < 270 + 40 * big { let mut c = cl(&[1]); while c.len() < 4 { let v = 2 + rng.below(n as usize - 1) as i32; if c.contains(&v) || c.contains(&-v) { continue; } c.insert(if rng.chance(0.5) { v } else { -v }); } set.insert(c); }
+        starts.push((n, set.into_iter().collect(), "large".into()));
+    }
     for (n, cls, origin) in &starts {
         let text = cnf_text(*n, cls);
         let mut d = match load_cnf(&ctx.dir, &text) {
@@ -243,10 +250,10 @@ pub fn c12(a: &Args) {
         let spec = Spec { cur: (sset.clone(), sn), prev: None };
         let alpha = alphabet(sn, &sset, &mut rng);
         // exhaustive command trees
-        let depth = if a.thorough() { if *n <= 2 { 4 } else { 3 } } else if *n <= 2 { 3 } else { 2 };
-        explore(&mut ctx, &d, &spec, &start, &Vec::new(), &Vec::new(), &alpha, depth);
+        let depth = if origin == "large" { 1 } else if a.thorough() { if *n <= 2 { 4 } else { 3 } } else if *n <= 2 { 3 } else { 2 };
+        if origin != "large" { explore(&mut ctx, &d, &spec, &start, &Vec::new(), &Vec::new(), &alpha, depth); }
         // random longer sequences
-        for _ in 0..(if a.thorough() { 12 } else { 3 }) {
+        for _ in 0..(if origin == "large" { 2 } else if a.thorough() { 12 } else { 3 }) {
             let mut d2 = d.clone(); let mut s2 = spec.clone(); let mut h: Vec<String> = Vec::new(); let mut tr: Trace = Vec::new();
             ctx.out.query("ccinit", &start, "ok");
             for _ in 0..(5 + rng.below(8)) {
@@ -264,5 +271,5 @@ pub fn c12(a: &Args) {
     let steps = ctx.steps;
     out.count("commands_run", steps);
     out.count("compiler_calls", refcomp::compile_calls());
-    out.finish("start CNFs: satisfiable clause sets over 2 variables (all in thorough, a sample in quick) and random CNFs with 3..10 variables incl. tautologies and duplicates, loaded through the real loader with the self-validated reference compiler behind the hook; the initial save-cnf must be equivalent to the input; command trees over a fixed alphabet per start (undo, add fresh / stored clause, remove stored / absent / just-added clause, combined add+remove, remove+re-add, duplicate removal, t up / down / with a new variable) explored exhaustively to depth 2..4 from cloned instances, plus random sequences of 5..12 commands; after every command: accepted/rejected as the abstract clause-set machine says (error code checked), a rejected command leaves the node array unchanged, save-cnf writes exactly the machine's current clause set and feature count, the C01-C06 battery answers as the truth table of that clause set; the Lean clause-cache machine replays every history and must reach the same observable state");
+    out.finish("start CNFs: satisfiable clause sets over 2 variables (all in thorough, a sample in quick), random CNFs with 3..10 variables incl. tautologies and duplicates, and a CNF with 270+ stored clauses over 9..11 variables (random command sequences only), loaded through the real loader with the self-validated reference compiler behind the hook; the initial save-cnf must be equivalent to the input; command trees over a fixed alphabet per start (undo, add fresh / stored clause, remove stored / absent / just-added clause, combined add+remove, remove+re-add, duplicate removal, t up / down / with a new variable) explored exhaustively to depth 2..4 from cloned instances, plus random sequences of 5..12 commands; after every command: accepted/rejected as the abstract clause-set machine says (error code checked), a rejected command leaves the node array unchanged, save-cnf writes exactly the machine's current clause set and feature count, the C01-C06 battery answers as the truth table of that clause set; the Lean clause-cache machine replays every history and must reach the same observable state");
 }
